@@ -539,8 +539,8 @@ class Checker(object):
             return
         self.out('path', k, 'unique')
         if id(gn) in c.ambiguous:
-            self.counters['fetch not attempted (node has an indistinguishable same-position sibling, reported as data)'] += 1
-            return
+            # the sibling pair is reported as a data finding; the node still reports a unique path and must be fetched by it
+            self.counters['fetch attempted although the node has an indistinguishable same-position sibling'] += 1
         fns = ['getnodebypath', 'getnodebypath2'] if k in ('loop', 'seg') else ['getnodebypath2']
         if k not in ('loop', 'seg'):
             self.counters['getnodebypath on element-level paths (not offered by the API, not asserted)'] += 1
@@ -571,7 +571,12 @@ class Checker(object):
                     o = 'raises %s@%s' % (type(e).__name__, core.where(e))
                 self.out('fetch', fn, k, how, o)
                 if o != 'same':
-                    F.append(('C16|fetch|%s|%s|%s' % (fn, KINDNAME[k], o), '%s: %s(%r) (%s) for the %s %s: %s' % (c.file, fn, sp, how, KINDNAME[k], gn.upath, o)))
+                    if id(gn) in c.ambiguous:
+                        # a member of a sibling pair the map cannot tell apart: keyed by file and path, so that the
+                        # recorded consequences of the shipped ambiguities do not hide any other fetch failure
+                        F.append(('C16|fetch|%s|%s|%s|%s|%s' % (fn, KINDNAME[k], c.file, p, o), '%s: %s(%r) (%s) for the %s %s: %s' % (c.file, fn, sp, how, KINDNAME[k], gn.upath, o)))
+                    else:
+                        F.append(('C16|fetch|%s|%s|%s' % (fn, KINDNAME[k], o), '%s: %s(%r) (%s) for the %s %s: %s' % (c.file, fn, sp, how, KINDNAME[k], gn.upath, o)))
 
     def node(self, gn):
         F = []
